@@ -6,7 +6,7 @@ from __future__ import annotations
 import ast
 
 from ..cfg import CFG
-from ..core import AnalysisError, const_value
+from ..core import callee_is, AnalysisError, const_value
 from ..defuse import DefUse, Terms, show, walk_term
 from ..defuse import key as tkey
 from ..memo import check_no_cross_call_state
@@ -439,7 +439,7 @@ def _groupby_max(ctx, f):
 
 def _confidence(ctx, f):
     calls = [n for n in ast.walk(f.node) if isinstance(n, ast.Call)
-             and ast.unparse(n.func) == "picked_protein"]
+             and callee_is(ctx.prog, f, n, "picked_protein")]
     ctx.require(len(calls) == 1, f"{f.qual}: picked_protein call not found")
     prog = ctx.prog
     du = DefUse(prog, f)
